@@ -143,6 +143,12 @@ func (ev *cenv) eval(e *CExpr) *Val {
 		if v == nil {
 			ev.fail("unknown identifier %q", e.Name)
 		}
+		if v.AutoDeref {
+			// captured variable of a closure: its current content
+			nv := *v
+			nv.AutoDeref = false
+			return ev.loadLV(E.ptrLV(&nv))
+		}
 		if v.LV != nil && v.LV.Kind == lvLocal && v.S == "" && ev.st != nil {
 			// address-taken local referenced by name: use its content
 			if strings.HasPrefix(e.Name, "&") {
